@@ -1487,6 +1487,10 @@ class Render:
             # in HTML mode "&", "<" and ">" reach the macro parser as "&amp;", "&lt;", "&gt;": the
             # docs rule out these three as delimiters; ";" would be found inside the escaped text
             cands = [c for c in cands if c != ';']
+        # an item that ends with a '$name' replacement field must not be followed by a character that would extend the name
+        ends_sub = any(re.search(r'\$[A-Za-z_][A-Za-z0-9_]*$', it) for it in items)
+        if ends_sub:
+            cands = [c for c in cands if not (c.isalnum() or c == '_')]
         if not cands:
             return None
         d = r.choice(cands)
@@ -1500,6 +1504,8 @@ class Render:
         comma_ok = ',' in joined and doc_split_commas(','.join(items)) == list(items)
         if comma_ok and r.random() < .5:
             seps = [',']
+        if ends_sub:
+            seps = [c for c in seps if not (c.isalnum() or c == '_')]
         if not seps:
             return None
         sp = d if (r.random() < .3 and d in seps) else (' ' if (r.random() < .2 and ' ' in seps) else r.choice(seps))
